@@ -277,6 +277,15 @@ Qed.
 
 (* ---------- windash ---------- *)
 Definition no_ph (v : sstring) : bool := negb (existsb is_ph v).
+(* no placeholder carrying the internal name used by windash *)
+Definition no_wd_ph (v : sstring) : bool :=
+  forallb (fun p => match p with PPh n => negb (str_eqb n windash_name) | _ => true end) v.
+Lemma no_ph_no_wd_ph v : no_ph v = true -> no_wd_ph v = true.
+Proof.
+  unfold no_ph, no_wd_ph. induction v as [|p v IH]; [reflexivity|]. cbn [existsb forallb]. intros H.
+  apply negb_true_iff in H. apply orb_false_iff in H. destruct H as [H1 H2].
+  rewrite IH by (apply negb_true_iff; exact H2). destruct p; try reflexivity. discriminate H1.
+Qed.
 Definition not_lit_head (l : istr) : bool := match l with Lit _ :: _ => false | _ => true end.
 
 Lemma variants_prev_irrelevant w l p q : not_lit_head l = true -> variants w p l = variants w q l.
@@ -319,13 +328,11 @@ Proof.
   cbn [wfp]. rewrite !andb_true_iff. intros [[_ Hs] Hv].
   destruct v as [|[[|c t]| | |n] v]; try reflexivity; discriminate.
 Qed.
-Lemma rwp_items w : forall v, wfp v = true -> no_ph v = true ->
+Lemma rwp_items w : forall v, wfp v = true -> no_wd_ph v = true ->
   map items (rp (replace_with_placeholder w v)) = variants w false (items v).
 Proof.
   induction v as [|p v IH]; intros Hw Hn; [reflexivity|].
-  assert (Hn': no_ph v = true).
-  { unfold no_ph in *. cbn [existsb] in Hn. apply negb_true_iff in Hn. apply orb_false_iff in Hn.
-    apply negb_true_iff. tauto. }
+  cbn [no_wd_ph forallb] in Hn. apply andb_true_iff in Hn. destruct Hn as [Hp Hn'].
   specialize (IH (wfp_tail _ _ Hw) Hn').
   unfold replace_with_placeholder in *. cbn [flat_map]. destruct p as [s| | |n].
   - destruct s as [|c s]; [discriminate Hw|]. cbn [rwp_part].
@@ -335,7 +342,8 @@ Proof.
     rewrite <- IH, map_map. reflexivity.
   - cbn [rwp_part app rp]. rewrite map_map. rewrite items_cons. cbn [part_items app variants].
     rewrite <- IH, map_map. reflexivity.
-  - discriminate Hn.
+  - cbn [rwp_part app rp]. apply negb_true_iff in Hp. rewrite Hp. rewrite map_map. rewrite items_cons.
+    cbn [part_items app variants]. rewrite <- IH, map_map. reflexivity.
 Qed.
 
 Lemma rp_no_ph X : no_ph X = true -> rp X = [X].
@@ -345,7 +353,7 @@ Proof.
   destruct p; try discriminate Hp; cbn [rp]; rewrite IH by (apply negb_true_iff; exact HX); reflexivity.
 Qed.
 
-Theorem windash_items w v : wfp v = true -> no_ph v = true ->
+Theorem windash_items w v : wfp v = true -> no_wd_ph v = true ->
   map items (windash w v) = variants w false (items v).
 Proof.
   intros Hw Hn. rewrite <- (rwp_items w v Hw Hn). unfold windash, replace_placeholders.
@@ -600,8 +608,6 @@ Proof.
   - cbn [ip_part items flat_map part_items app]. rewrite sp_expand_nonlit; [reflexivity | exact I].
   - cbn [ip_part items flat_map part_items app]. rewrite sp_expand_nonlit; [reflexivity | exact I].
 Qed.
-Print Assumptions insert_placeholders_items.
-Print Assumptions windash_items.
 
 (* ====================================================================================== *)
 (* The chain: the model of from_mapping refines the specification                          *)
@@ -971,7 +977,7 @@ Proof.
     apply (compile_sim O nph); [|exact G1]. rewrite E1, to_plain_items. reflexivity.
   - split; reflexivity.
   - (* windash *) specialize (Hwd eq_refl). subst nph. cbn.
-    pose proof (windash_items (word O) s (good_str_wfp _ _ Hg) (good_str_nph _ Hg)) as E.
+    pose proof (windash_items (word O) s (good_str_wfp _ _ Hg) (no_ph_no_wd_ph _ (good_str_nph _ Hg))) as E.
     pose proof (windash_good (word O) s (good_str_wfp _ _ Hg) (good_str_nph _ Hg)) as G.
     split.
     + rewrite <- E, !map_map. reflexivity.
@@ -1090,3 +1096,319 @@ Proof.
     apply (IH (S applied) {| values := vs; link_and := link_and st; negated := negated st |} (nph && negb (is_expand m))); auto.
     discriminate.
 Qed.
+
+(* ---------- the two modifier tables agree ---------- *)
+Lemma tables_agree id : lookup_modifier modifier_mapping id = lookup_modifier sp_names id.
+Proof.
+  unfold modifier_mapping, sp_names. cbn [lookup_modifier].
+  repeat match goal with
+         | |- context [str_eqb ?n id] =>
+             let E := fresh "E" in
+             destruct (str_eqb n id) eqn:E; [apply str_eqb_eq in E; subst id; reflexivity|]
+         end.
+  reflexivity.
+Qed.
+
+Lemma lookup_all_sim ids :
+  match lookup_all ids with
+  | Ok ms => sp_lookup_all ids = Some ms
+  | SigmaErr _ => sp_lookup_all ids = None
+  | Crash _ => False
+  end.
+Proof.
+  induction ids as [|i r IH]; [reflexivity|]. cbn [lookup_all sp_lookup_all]. rewrite <- tables_agree.
+  destruct (lookup_modifier modifier_mapping i) as [m|]; [|reflexivity].
+  destruct (lookup_all r) as [ms|e|e]; cbn [obind]; [rewrite IH; reflexivity | rewrite IH; reflexivity | exact IH].
+Qed.
+
+Lemma key_sim key : sp_key key = (has_field (fst (split_key key)), snd (split_key key)).
+Proof.
+  unfold sp_key, split_key. destruct key as [k|]; [|reflexivity].
+  destruct (split_on c_pipe k []) as [|f ids]; [reflexivity|]. destruct f; reflexivity.
+Qed.
+
+(* ---------- plain values ---------- *)
+Definition exact_int (z : Z) : bool :=
+  let f := round_f64 z in negb (Z.shiftl 1 1024 <=? Z.abs f)%Z && (f =? z)%Z.
+Definition exact_ints (l : list yv) : bool :=
+  forallb (fun v => match v with YInt z => exact_int z | _ => true end) l.
+Definition nonempty_strs (l : list yv) : bool :=
+  forallb (fun v => match v with YStr [] => false | _ => true end) l.
+
+Definition sim_val (nph : bool) (r : outcome mval) (s : option sval) : Prop :=
+  match r with
+  | Ok v => s = Some (view v)
+  | SigmaErr _ => s = None
+  | Crash _ => False
+  end.
+
+Lemma sigma_value_sim hr v : match v with YInt z => exact_int z | _ => true end = true ->
+  sim_val true (sigma_value hr v) (sp_value hr v).
+Proof.
+  intros H. destruct v as [s|z|n d| |b| |]; cbn [sigma_value sp_value sim_val]; try reflexivity.
+  - cbn [view gmap amap]. destruct hr; [cbn; rewrite app_nil_r; reflexivity | rewrite parse_items; reflexivity].
+  - unfold exact_int in H. apply andb_true_iff in H. destruct H as [H1 H2]. apply negb_true_iff in H1.
+    cbn [sigma_number]. rewrite H1, H2. reflexivity.
+  - cbn [sigma_number]. destruct (Pos.eqb d 1); reflexivity.
+Qed.
+
+Lemma values_sim hr l : exact_ints l = true ->
+  match mapM (sigma_value hr) l with
+  | Ok vs => sp_values hr l = Some (map view vs)
+  | SigmaErr _ => sp_values hr l = None
+  | Crash _ => False
+  end.
+Proof.
+  induction l as [|v r IH]; intros H; [reflexivity|]. cbn [exact_ints forallb] in H.
+  apply andb_true_iff in H. destruct H as [Hv Hr]. specialize (IH Hr).
+  pose proof (sigma_value_sim hr v Hv) as S. unfold sim_val in S.
+  cbn [mapM sp_values]. destruct (sigma_value hr v) as [a|e|e]; cbn [obind]; [|rewrite S; reflexivity | exact S].
+  rewrite S. destruct (mapM (sigma_value hr) r) as [b|e|e]; cbn [obind]; [rewrite IH; reflexivity | rewrite IH; reflexivity | exact IH].
+Qed.
+
+(* initial values are well-formed, except SigmaString.from_str("") *)
+Lemma sigma_value_good hr v mv :
+  (hr = true -> match v with YStr [] => false | _ => true end = true) ->
+  sigma_value hr v = Ok mv -> good true mv = true.
+Proof.
+  intros Hs H. destruct v as [s|z|n d| |b| |]; cbn [sigma_value] in H; try discriminate H.
+  - inversion H; subst. cbn [good good_atom]. destruct hr.
+    + destruct s as [|c s]; [specialize (Hs eq_refl); discriminate Hs | reflexivity].
+    + apply good_str_intro; [apply parse_wfp | intros _; apply parse_no_ph].
+  - destruct (sigma_number (YInt z)); cbn in H; inversion H; reflexivity.
+  - destruct (sigma_number (YFloat n d)); cbn in H; inversion H; reflexivity.
+  - inversion H; reflexivity.
+  - inversion H; reflexivity.
+Qed.
+Lemma values_good hr l vs :
+  (hr = true -> nonempty_strs l = true) -> mapM (sigma_value hr) l = Ok vs -> forallb (good true) vs = true.
+Proof.
+  revert vs. induction l as [|v r IH]; intros vs Hs H; [inversion H; reflexivity|].
+  cbn [mapM] in H. destruct (sigma_value hr v) as [a|e|e] eqn:Ea; cbn [obind] in H; try discriminate H.
+  destruct (mapM (sigma_value hr) r) as [b|e|e] eqn:Eb; cbn [obind] in H; try discriminate H.
+  inversion H; subst. cbn [forallb]. rewrite (IH b); [|intros E; specialize (Hs E); cbn in Hs; apply andb_true_iff in Hs; tauto | reflexivity].
+  rewrite (sigma_value_good hr v a); [reflexivity | | exact Ea].
+  intros E; specialize (Hs E); cbn in Hs; apply andb_true_iff in Hs; tauto.
+Qed.
+
+(* 're' as the first modifier, on the values from_mapping builds when 're' is in the chain *)
+Lemma all_lits_map s : all_lits (map Lit s) = Some s.
+Proof. induction s as [|c s IH]; [reflexivity|]. cbn [map all_lits fold_right] in *. unfold all_lits in IH. rewrite IH. reflexivity. Qed.
+
+Lemma first_re_value_sim O field v mv : sigma_value true v = Ok mv ->
+  sim_list true (apply_val O field 0 MRe mv) (sp_apply O (has_field field) true MRe (view mv)).
+Proof.
+  intros H. destruct v as [s|z|n d| |b| |]; cbn [sigma_value] in H; try discriminate H.
+  - inversion H; subst. cbn [apply_val type_check modify view gmap amap sp_apply sp_modify kind_of sp_defined_on negb].
+    cbn [from_str to_plain flat_map part_plain items part_items]. rewrite !app_nil_r, all_lits_map.
+    cbn [Nat.ltb Nat.leb].
+    pose proof (compile_sim O true (parse false s) (iparse_noesc s) false false false (parse_noesc_items s)
+                  (good_str_intro true _ (parse_noesc_wfp s) (fun _ => parse_noesc_no_ph s))) as C.
+    destruct (compile O (parse false s) false false false) as [r|e|e]; cbn [obind sim_list]; [|rewrite C; reflexivity | exact C].
+    destruct C as [C1 C2]. rewrite C1. cbn. rewrite C2. split; reflexivity.
+  - destruct (sigma_number (YInt z)); cbn in H; inversion H; reflexivity.
+  - destruct (sigma_number (YFloat n d)); cbn in H; inversion H; reflexivity.
+  - inversion H; reflexivity.
+  - inversion H; reflexivity.
+Qed.
+
+Lemma mapM_Forall {A B} (f : A -> outcome B) l vs :
+  mapM f l = Ok vs -> Forall (fun b => exists a, f a = Ok b) vs.
+Proof.
+  revert vs. induction l as [|a r IH]; intros vs H; [inversion H; constructor|].
+  cbn [mapM] in H. destruct (f a) as [b|e|e] eqn:Ea; cbn [obind] in H; try discriminate H.
+  destruct (mapM f r) as [bs|e|e]; cbn [obind] in H; try discriminate H.
+  inversion H; subst. constructor; [exists a; exact Ea | apply IH; reflexivity].
+Qed.
+
+(* ---------- the theorem ---------- *)
+Definition values_of (val : yin) : list yv := match val with YOne v => [v] | YMany l => l end.
+
+(* the domain: modifiers outside the five encoding modifiers (property C04), no 'expand' before a
+   'windash' (placeholders named _windash), integers that survive float(), and no empty string
+   under a 're' that is not the first modifier *)
+Definition in_domain (key : option str) (val : yin) : bool :=
+  exact_ints (values_of val) &&
+  match lookup_all (snd (split_key key)) with
+  | Ok ms => forallb core ms && wd_ok true ms &&
+             (negb (existsb is_re ms) || match ms with m :: _ => is_re m | [] => false end
+              || nonempty_strs (values_of val))
+  | _ => true
+  end.
+
+Definition refines (O : oracles) (key : option str) (val : yin) : Prop :=
+  match from_mapping O key val with
+  | Ok st => sp_from_mapping O key val = Some (map view (values st), link_and st, negated st)
+  | SigmaErr _ => sp_from_mapping O key val = None
+  | Crash _ => False
+  end.
+
+Theorem from_mapping_refines O key val : in_domain key val = true -> refines O key val.
+Proof.
+  unfold in_domain, refines, from_mapping, sp_from_mapping. rewrite key_sim.
+  destruct (split_key key) as [field ids]. cbn [fst snd]. fold (values_of val).
+  intros H. apply andb_true_iff in H. destruct H as [Hi H].
+  pose proof (lookup_all_sim ids) as L.
+  destruct (lookup_all ids) as [ms|e|e]; cbn [obind]; [|rewrite L; reflexivity | exact L].
+  rewrite L. apply andb_true_iff in H. destruct H as [H Hre]. apply andb_true_iff in H. destruct H as [Hc Hw].
+  pose proof (values_sim (existsb is_re ms) (values_of val) Hi) as V.
+  destruct (mapM (sigma_value (existsb is_re ms)) (values_of val)) as [vs|e|e] eqn:EV; cbn [obind];
+    [|rewrite V; reflexivity | exact V].
+  rewrite V.
+  destruct ms as [|m ms']; [reflexivity|].
+  destruct (is_re m) eqn:Em.
+  - (* 're' first *)
+    destruct m; try discriminate Em. cbn [existsb is_re orb] in EV.
+    cbn [run_chain sp_chain step values link_and negated].
+    assert (S1: sim_list true (flat_mapM (apply_val O field 0 MRe) vs)
+                  (sp_flat (sp_apply O (has_field field) true MRe) (map view vs))).
+    { apply flat_sim. apply mapM_Forall in EV. rewrite Forall_forall in *. intros x Hx.
+      destruct (EV x Hx) as [y Hy]. apply (first_re_value_sim O field y x Hy). }
+    unfold sim_list in S1.
+    destruct (flat_mapM (apply_val O field 0 MRe) vs) as [vs1|e|e]; cbn [obind]; [|rewrite S1; reflexivity | exact S1].
+    destruct S1 as [S1 G1]. rewrite S1.
+    cbn [forallb] in Hc. apply andb_true_iff in Hc. destruct Hc as [_ Hc].
+    cbn [wd_ok is_windash is_expand negb orb andb] in Hw.
+    apply (chain_sim O field ms' 1 {| values := vs1; link_and := false; negated := false |} true Hc Hw); [discriminate | exact G1].
+  - assert (G: forallb (good true) vs = true).
+    { apply (values_good (existsb is_re (m :: ms')) (values_of val) vs); [|exact EV].
+      intros E. change (match m :: ms' with [] => false | m0 :: _ => is_re m0 end) with (is_re m) in Hre.
+      rewrite E in Hre. exact Hre. }
+    apply (chain_sim O field (m :: ms') 0 {| values := vs; link_and := false; negated := false |} true Hc Hw);
+      [intros _; exact Em | exact G].
+Qed.
+
+(* admissibility: inside the domain the code rejects a chain exactly when the specification
+   does not define it *)
+Corollary rejected_iff O key val : in_domain key val = true ->
+  ((exists c, from_mapping O key val = SigmaErr c) <-> sp_from_mapping O key val = None).
+Proof.
+  intros H. pose proof (from_mapping_refines O key val H) as R. unfold refines in R.
+  destruct (from_mapping O key val) as [st|c|c] eqn:E.
+  - split; [intros [c Hc]; discriminate Hc | intros K; rewrite K in R; discriminate R].
+  - split; [intros _; exact R | intros _; exists c; reflexivity].
+  - contradiction.
+Qed.
+
+(* ---------- outside the domain: witnesses ---------- *)
+Definition O0 : oracles := {| word := fun _ => false; re_ok := fun _ => true; cidr_ok := fun _ => true |}.
+
+(* a user placeholder that happens to be called _windash is expanded by windash *)
+Lemma windash_placeholder_refuted :
+  exists v, wfp v = true /\ map items (windash (word O0) v) <> variants (word O0) false (items v).
+Proof. exists [PPh windash_name]. split; [reflexivity|]. vm_compute. discriminate. Qed.
+
+Definition key_expand_windash : option str := Some [102;124;101;120;112;97;110;100;124;119;105;110;100;97;115;104]. (* f|expand|windash *)
+Definition val_windash_ph : yin := YOne (YStr [37;95;119;105;110;100;97;115;104;37]).                                   (* %_windash% *)
+Lemma refines_refuted_windash : ~ refines O0 key_expand_windash val_windash_ph.
+Proof. unfold refines. vm_compute. discriminate. Qed.
+
+(* integers beyond the precision of a double change their content *)
+Lemma number_refuted : exists z, sigma_number (YInt z) <> Ok (NInt z).
+Proof. exists 9007199254740993%Z. vm_compute. discriminate. Qed.
+Lemma refines_refuted_number : ~ refines O0 (Some [102]) (YOne (YInt 9007199254740993)).
+Proof. unfold refines. vm_compute. discriminate. Qed.
+
+(* the domain is inhabited by non-trivial chains *)
+Lemma in_domain_example :
+  in_domain (Some [102;124;119;105;110;100;97;115;104;124;99;111;110;116;97;105;110;115;124;97;108;108])  (* f|windash|contains|all *)
+            (YMany [YStr [45;97;32;47;98]; YStr [42;120]]) = true.
+Proof. vm_compute. reflexivity. Qed.
+
+(* ---------- statements collected for Props/C03.v ---------- *)
+Lemma front_no_empty v : no_empty v = true -> no_empty (add_multi_front v) = true.
+Proof.
+  intros H. unfold add_multi_front, sadd. destruct (starts_multi v); [exact H|].
+  apply wfp_no_empty, merge_no_empty_wfp. exact H.
+Qed.
+
+Lemma type_change_content :
+  forall O field applied c v n b fi fm fs o p,
+    modify O field applied MCased (AStr c v) = Ok (VAtom (AStr true v)) /\
+    modify O field applied (MCmp o) (ANum n) = Ok (VAtom (ACmp o n)) /\
+    modify O field applied (MFlag FI) (ARe v fi fm fs) = Ok (VAtom (ARe v true fm fs)) /\
+    modify O field applied (MFlag FM) (ARe v fi fm fs) = Ok (VAtom (ARe v fi true fs)) /\
+    modify O field applied (MFlag FS) (ARe v fi fm fs) = Ok (VAtom (ARe v fi fm true)) /\
+    modify O field applied (MTs p) (ANum n) = Ok (VAtom (ANum (NTs p (num_trunc n)))) /\
+    (forall z, num_trunc (NPlain (NInt z)) = z) /\
+    (forall r, modify O field applied MExists (ABool b) = Ok r -> r = VAtom (AExists b)) /\
+    (forall r, modify O field applied MCidr (AStr c v) = Ok r -> r = VAtom (ACidr (to_plain false v))) /\
+    (forall r, modify O field applied MFieldref (AStr c v) = Ok r ->
+               r = VAtom (AFieldRef (to_plain false v) false false) /\ contains_special v = false) /\
+    (forall s r, modify O field applied MRe (AStr c (from_str s)) = Ok r ->
+               exists w, r = VAtom (ARe w false false false) /\ items w = iparse_noesc s).
+Proof.
+  intros. repeat match goal with |- _ /\ _ => split end; try reflexivity.
+  - intros r H. cbn [modify] in H. destruct field; [|discriminate H]. destruct (0 <? applied)%nat; inversion H; reflexivity.
+  - intros r H. cbn [modify] in H. destruct (0 <? applied)%nat; [discriminate H|].
+    destruct (cidr_ok O (to_plain false v)); inversion H; reflexivity.
+  - intros r H. cbn [modify] in H. destruct (contains_special v); inversion H. split; reflexivity.
+  - intros s r H. cbn [modify] in H. destruct (0 <? applied)%nat; [discriminate H|]. unfold compile in H.
+    destruct (re_ok O _); inversion H. eexists. split; [reflexivity|].
+    cbn [from_str to_plain flat_map part_plain]. rewrite app_nil_r. apply parse_noesc_items.
+Qed.
+
+Lemma wellformed_values :
+  (forall s, wfp (parse true s) = true /\ no_ph (parse true s) = true /\ wfp (parse false s) = true) /\
+  (forall v, wfp v = true -> wfp (add_multi_front v) = true /\ wfp (add_multi_back v) = true /\
+                             wfp (insert_placeholders v) = true) /\
+  (forall w v, wfp v = true -> no_ph v = true ->
+               Forall (fun x => wfp x = true /\ no_ph x = true) (windash w v)).
+Proof.
+  split; [|split].
+  - intros s. exact (conj (parse_wfp s) (conj (parse_no_ph s) (parse_noesc_wfp s))).
+  - intros v H. exact (conj (add_multi_front_wfp v H) (conj (add_multi_back_wfp v H) (insert_placeholders_wfp v H))).
+  - exact windash_good.
+Qed.
+
+Lemma contains_sem_model v s : no_empty v = true ->
+  (wild_match (items (add_multi_back (add_multi_front v))) s = true <->
+   exists a m b, s = a ++ m ++ b /\ wild_match (items v) m = true).
+Proof.
+  intros H. rewrite (add_multi_back_items _ (front_no_empty v H)), (add_multi_front_items v H).
+  exact (sp_contains_sem (items v) s).
+Qed.
+Lemma startswith_sem_model v s : no_empty v = true ->
+  (wild_match (items (add_multi_back v)) s = true <->
+   exists m b, s = m ++ b /\ wild_match (items v) m = true).
+Proof. intros H. rewrite (add_multi_back_items v H). exact (sp_back_sem (items v) s). Qed.
+Lemma endswith_sem_model v s : no_empty v = true ->
+  (wild_match (items (add_multi_front v)) s = true <->
+   exists a m, s = a ++ m /\ wild_match (items v) m = true).
+Proof. intros H. rewrite (add_multi_front_items v H). exact (sp_front_sem (items v) s). Qed.
+Lemma wildcard_idem l :
+  sp_contains (sp_contains l) = sp_contains l /\ sp_back (sp_back l) = sp_back l /\
+  sp_front (sp_front l) = sp_front l.
+Proof. exact (conj (sp_contains_idem l) (conj (sp_back_idem l) (sp_front_idem l))). Qed.
+Lemma all_neq_frame O field :
+    (forall applied st, step O field applied MAll st =
+        Ok {| values := values st; link_and := true; negated := negated st |}) /\
+    (forall applied st, step O field applied MNeq st =
+        Ok {| values := values st; link_and := link_and st; negated := true |}) /\
+    (forall ms applied st st', run_chain O field applied ms st = Ok st' ->
+        link_and st' = (link_and st || existsb is_all ms) /\
+        negated st' = (negated st || existsb is_neq ms)) /\
+    (forall ms applied st1 st2, values st1 = values st2 ->
+        same_values (run_chain O field applied ms st1) (run_chain O field applied ms st2)).
+Proof.
+  exact (conj (step_all O field) (conj (step_neq O field)
+        (conj (run_chain_flags O field) (run_chain_values_indep O field)))).
+Qed.
+Lemma windash_variants w : w c_dash = false /\ w c_slash = false ->
+  forall l,
+    (forall x, In x (variants w false l) <-> is_variant w false l x) /\
+    NoDup (variants w false l) /\
+    length (variants w false l) = Nat.pow 5 (count_params w false l).
+Proof.
+  intros Hw l.
+  exact (conj (variants_spec w Hw l false) (conj (variants_NoDup w l false) (variants_length w Hw l false))).
+Qed.
+Lemma number_refuted_both :
+  (exists z, sigma_number (YInt z) <> Ok (NInt z)) /\
+  ~ refines O0 (Some [102%N]) (YOne (YInt 9007199254740993)).
+Proof. exact (conj number_refuted refines_refuted_number). Qed.
+Lemma premises_inhabited :
+  in_domain (Some [102;124;119;105;110;100;97;115;104;124;99;111;110;116;97;105;110;115;124;97;108;108]%N)
+            (YMany [YStr [45;97;32;47;98]%N; YStr [42;120]%N]) = true /\
+  wfp [PStr [45;97]%N; PMulti] = true /\ no_wd_ph [PStr [45;97]%N; PPh [120]%N] = true.
+Proof. split; [exact in_domain_example | split; reflexivity]. Qed.
